@@ -537,6 +537,22 @@ class HistRun:
                 self.queue = [follow]
                 return {"op": "report", "report": "partial", "coll": c.path, "kind": r.choice(["multiget", "query"]), "mode": "expand" if (rec and r.random() < 0.7) else r.choice(["props", "expand"]),
                         "names": [n], "salt": r.getrandbits(32)}
+        if self.prop == "C15" and r.random() < 0.08:
+            # everything that is set on a collection is removed again, one request per property
+            # (the last removal leaves nothing to record)
+            cs = [c for c in self.store_colls() if c.props and c.kind in PROPS_FOR_KIND]
+            plain = [c for c in cs if c.kind == "plain"]
+            if cs:
+                c = r.choice(plain or cs)
+                tags = sorted(c.props)
+                r.shuffle(tags)
+                ops = [{"op": "proppatch", "path": c.path, "instrs": [["remove", t, None]]} for t in tags]
+                self.queue = ops[1:]
+                return dict(ops[0], salt=r.getrandbits(32))
+            plain = [c for c in self.store_colls(("plain",)) if c.kind == "plain"]
+            if plain:
+                c = r.choice(plain)
+                return {"op": "proppatch", "path": c.path, "instrs": [["set", dav.P_DISPLAYNAME, self.gen_prop_value(dav.P_DISPLAYNAME, c.backend)]], "salt": r.getrandbits(32)}
         if self.prop == "C14" and r.random() < 0.07:
             # bytes the repository already knows as a plain file are not therefore a calendar object
             cands = [(c, n) for c in self.store_colls(("calendar",)) for n, mm in sorted(c.members.items()) if mm.served and n.endswith(".ics")]
